@@ -19,9 +19,26 @@ syntax's tags are plain text there); File / HTMLFile templates are created on a 
 on the same path, re-cook, unpickle), edited through edited_source / manage_edit, reverted (manage_default) and read
 through the other file class.  Expected output at every step: the independent printer applied to the abstract template
 that is the current source.
+Every step of such a history may meet the EMPTY source and other degenerate ones (blank, a lone line end, '0', 'None',
+'()', zero-width characters …: text that careless code takes for "nothing given"): as constructor argument, as the text of
+an edit, as the content the file is rewritten with.
+Edit walks: one object of HTML / String (or an HTMLDefault, which edits itself through a copy) goes through a random
+sequence drawn from EVERY way of giving it a source -- munge(src) / munge(source_string=src) / manage_edit(src[, None]) /
+raw = src + cook() / munge(src, mapping[, **vars]) / munge(src, **vars) / a new object (positional, keyword, default
+argument) / HTMLDefault.manage_edit -- and every operation that must KEEP the source -- munge() / munge(None) /
+munge(None, mapping) / munge(mapping=…) / munge(**vars) (also with an empty mapping) / cook() / pickle / deepcopy -- over
+five versions of which at least one is the empty source; plus, deterministically, each source-giving operation x (source
+with tags | empty | degenerate)^2 for before / after.  After every operation the object is rendered, x / y / z coming
+partly from the defaults the edits installed and partly from the call; expected: the independent printer on the abstract
+template of the CURRENT version with those values.
+Correspondence: the same walks run on the Lean template state machine (DTML.Tmpl, driver op "tmpl"): after every operation
+the real object's raw / defaults / presence of compiled data equal the model's, its compiled blocks equal the Lean
+builder's tree of the source the state machine holds, and each call's output is the printer's rendering of the program /
+defaults / inputs the state machine names.
 Correspondence: token streams and compiled trees (with all literal nodes) of the Lean scanner/builder model vs the real
 parser on the same sources and on raw fragment soups.
 """
+import copy
 import json
 import os
 import pickle
@@ -283,27 +300,28 @@ def adjust(nodes, st):
     return out
 
 
-def evaluate(nodes):
+def evaluate(nodes, sent=None):
+    sent = SENT if sent is None else sent
     out = []
     for n in nodes:
         k = n[0]
         if k == 'lit':
             out.append(n[1])
         elif k == 'var':
-            out.append(SENT[n[1][1]])
+            out.append(sent[n[1][1]])
         elif k in ('call', 'comment'):
             pass
         elif k == 'if':
             for t, body in n[1]:
                 if TRUTH[t[1]]:
-                    out.append(evaluate(body))
+                    out.append(evaluate(body, sent))
                     break
             else:
                 if n[2] is not None:
-                    out.append(evaluate(n[2]))
+                    out.append(evaluate(n[2], sent))
         elif k == 'unless':
             if not TRUTH[n[1][1]]:
-                out.append(evaluate(n[2]))
+                out.append(evaluate(n[2], sent))
         elif k == 'in':
             cnt = SEQLEN[n[1][1]]
             o = dict(n[2])
@@ -312,30 +330,30 @@ def evaluate(nodes):
                 start, size = int(o['start']), int(o['size'])
                 exists = (start > 1) if 'previous' in o else (start + size - 1 < cnt)
                 if exists:
-                    out.append(evaluate(n[3]))
+                    out.append(evaluate(n[3], sent))
                 elif n[4] is not None:
-                    out.append(evaluate(n[4]))
+                    out.append(evaluate(n[4], sent))
             elif cnt:
                 if 'size' in o:
                     cnt = max(0, min(cnt, int(o['start']) - 1 + int(o['size'])) - (int(o['start']) - 1))
-                out.append(evaluate(n[3]) * cnt)
+                out.append(evaluate(n[3], sent) * cnt)
             elif n[4] is not None:
-                out.append(evaluate(n[4]))
+                out.append(evaluate(n[4], sent))
         elif k in ('with', 'let'):
-            out.append(evaluate(n[-1]))
+            out.append(evaluate(n[-1], sent))
         elif k == 'try':
-            out.append(evaluate(n[1]))
+            out.append(evaluate(n[1], sent))
             if n[3] is not None:
-                out.append(evaluate(n[3]))
+                out.append(evaluate(n[3], sent))
             if n[4] is not None:
-                out.append(evaluate(n[4]))
+                out.append(evaluate(n[4], sent))
         else:
             raise ValueError(k)
     return ''.join(out)
 
 
-def expected(tmpl):
-    return evaluate(adjust(unmark_tree(tmpl), {'ab': False}))
+def expected(tmpl, sent=None):
+    return evaluate(adjust(unmark_tree(tmpl), {'ab': False}), sent)
 
 
 class O:
@@ -542,14 +560,34 @@ def nl_tree(x):
 class Version:
     """one source text with its independently computed rendering"""
 
-    def __init__(self, kind, msrc, exp):
+    def __init__(self, kind, msrc, exp, tmpl=None):
         self.kind = kind
         self.msrc = msrc
         self.src, self.cands = split_marks(msrc)
         self.exp = exp
+        self.tmpl = tmpl        # the abstract template (to print it again with other inserted values)
 
 
-def draw_version(r, pool, syn, filemode):
+# Degenerate sources: the empty source and sources that are "nothing" or look false to careless code (tests on the
+# truth value of the text, on its stripped form, on its value read as a number / a Python constant).  All are sources
+# without tags: the top-level text is emitted verbatim, so each renders to itself -- the empty one to ''.
+DEGENERATE = [' ', '\n', ' \n', '\t', '  ', '\n\n', '0', '00', '0.0', 'None', 'False', '()', '[]', '{}', '""', "''", '-', '\xa0',
+              '\u200b', '\ufeff', 'null', '\r\n', '\r', '\x0c']
+
+
+def degenerate_version(r, syn, filemode, p_empty=0.6):
+    """the empty source (abstract template: no nodes) or another degenerate one (abstract template: one literal)"""
+    t = [] if r.random() < p_empty else [('lit', r.choice(DEGENERATE))]
+    if filemode:
+        t = nl_tree(t)
+    kind, msrc = tmplgen.render_source(t, syn, r)
+    return Version(kind, msrc, expected(t), t)
+
+
+def draw_version(r, pool, syn, filemode, degenerate=0.0):
+    """a source for one step of a history; with probability `degenerate` the empty / a degenerate source"""
+    if r.random() < degenerate:
+        return degenerate_version(r, syn, filemode)
     for _ in range(12):
         c = r.random()
         if c < 0.2:
@@ -566,7 +604,7 @@ def draw_version(r, pool, syn, filemode):
         if filemode:
             t = nl_tree(t)
         kind, msrc = tmplgen.render_source(t, syn, r)
-        v = Version(kind, msrc, expected(t))
+        v = Version(kind, msrc, expected(t), t)
         if v.src and cands_are_text(kind, v.src, v.cands):
             return v
     return None
@@ -584,7 +622,10 @@ def run_histories(res, r, n, pool):
         for h in range(n):
             syn = r.choice(['dtml', 'ssi', 'epfs'])
             filemode = r.random() < 0.6
-            vs = [draw_version(r, pool, syn, filemode) for _ in range(5)]
+            # every step of a history may meet the empty / a degenerate source -- as the text given to the constructor, to an
+            # edit, written to the file -- except where the class itself gives '' another meaning: FileMixin.edited_source == ''
+            # is "not edited" (v3, v4 of a file history)
+            vs = [draw_version(r, pool, syn, filemode, 0.0 if filemode and i >= 3 else 0.22) for i in range(5)]
             if any(v is None for v in vs):
                 res.count('history_skipped')
                 continue
@@ -673,7 +714,355 @@ def run_histories(res, r, n, pool):
         shutil.rmtree(tmp, ignore_errors=True)
 
 
-def run_checks(res, r, n_tmpl, n_plain, n_pairs, have_driver, n_hist=0, battery_stride=1):
+# --------------------------------------------------------------------------- edit walks: every way of giving an object a source
+
+def sentv(name, code):
+    """inserted value number `code` of variable `name` (0: the one the calls pass)"""
+    return SENT[name] if code == 0 else '«%s%d»' % (name.upper(), code)
+
+
+def edit_by_copy_class():
+    """HTMLDefault ("HTML document templates that edit themselves through copy") with the confirmation page its
+    manage_edit answers with (DT_UI, which normally supplies one, is not loaded)"""
+    cls = globals().get('EditByCopy')
+    if cls is None:
+        from DocumentTemplate import HTMLDefault
+
+        class EditByCopy(HTMLDefault):
+            def editConfirmation(self, doc, REQUEST=None):
+                return 'changed'
+        EditByCopy.__module__ = __name__
+        EditByCopy.__qualname__ = 'EditByCopy'
+        globals()['EditByCopy'] = cls = EditByCopy
+    return cls
+
+
+class Holder:
+    """the folder an edit-through-copy puts the new object into"""
+
+
+# operations that give the object a (new) source ...
+EDITS = ['munge(src)', 'munge(source_string=src)', 'manage_edit(src)', 'manage_edit(src, None)', 'raw = src; cook()',
+         'munge(src, mapping)', 'munge(src, mapping, **vars)', 'munge(src, **vars)', 'new object: cls(src)',
+         'new object: cls(source_string=src)', 'new object: cls(src, mapping, **vars)', 'edit through copy']
+# ... and operations that must keep the one it has
+KEEPS = ['munge()', 'munge(None)', 'munge(None, mapping)', 'munge(mapping=mapping)', 'munge(**vars)', 'cook()', 'pickle', 'deepcopy',
+         'render again']
+
+
+def gen_codes(r, p_empty=0.25, nonempty=False):
+    """default values by name: {variable: value number}; an EMPTY mapping is a mapping that was given"""
+    if not nonempty and r.random() < p_empty:
+        return {}
+    d = {n: r.randint(1, 3) for n in 'xyz' if r.random() < 0.6}
+    return d or {r.choice('xyz'): r.randint(1, 3)}
+
+
+def gen_script(r, nvers, html, length):
+    script = []
+    for _ in range(length):
+        if r.random() < 0.62:
+            op = r.choice(EDITS)
+            if op == 'edit through copy' and not html:
+                op = 'munge(src)'
+            script.append((op, r.randrange(nvers)))
+        else:
+            script.append((r.choice(KEEPS), None))
+    return script
+
+
+def norm_blocks(obj):
+    try:
+        return parselib.norm(obj._v_blocks)
+    except Exception as e:  # noqa
+        return 'not normalisable: %r' % (e,)
+
+
+def run_walk(res, r, syn, vs, script, segments, label):
+    """One object history.  vs: the versions (sources with their abstract templates); script: [(operation, version index |
+    None)].  The reference state is (index of the current version, defaults by name) updated by the documented meaning of
+    each operation; after every operation the object is rendered with some of x / y / z left to the defaults, and the
+    output must be the independent printer's for the CURRENT version.  `segments` collects what the Lean template state
+    machine is asked about: [init, ops, observations of the real object after each op]."""
+    from DocumentTemplate import HTML, String
+    html = syn != 'epfs'
+    base = HTML if html else String
+    log = []
+    state = {'bad': False}
+
+    def mapping_of(codes):
+        return {n: sentv(n, c) for n, c in codes.items()}
+
+    def pairs(codes):
+        return sorted([n, c] for n, c in codes.items())
+
+    def fail(case_extra, what):
+        if not state['bad']:
+            state['bad'] = True
+            case = {'syntax': syn, 'class': base.__name__, 'history': list(log), 'sources': [x.src for x in vs]}
+            case.update(case_extra)
+            res.oracle_fail.append({'case': case, 'what': what})
+
+    cur = {'v': script[0][1], 'defaults': {}}
+    seg = None
+
+    def new_segment(init):
+        nonlocal seg
+        seg = {'init': init, 'ops': [], 'obs': [], 'syntax': syn, 'vs': vs, 'log': log}
+        segments.append(seg)
+
+    def observe(obj, mop, out=None):
+        seg['ops'].append(mop)
+        seg['obs'].append({'raw': obj.raw, 'globals': dict(obj.globals), 'vars': dict(obj._vars), 'cooked': hasattr(obj, '_v_cooked'),
+                           'blocks': norm_blocks(obj) if hasattr(obj, '_v_blocks') else None, 'out': out, 'at': len(log)})
+
+    def show(obj, what, v=None, defaults=None):
+        """render; x / y / z come from the call or, when left out of it, from the defaults"""
+        v = cur['v'] if v is None else v
+        defaults = cur['defaults'] if defaults is None else defaults
+        ns = namespace()
+        codes = {}
+        for n in 'xyz':
+            if n in defaults and r.random() < 0.7:
+                del ns[n]
+                codes[n] = defaults[n]
+            else:
+                codes[n] = r.choice([0, 0, 4])
+                ns[n] = sentv(n, codes[n])
+        exp = expected(vs[v].tmpl, {n: sentv(n, c) for n, c in codes.items()})
+        got = outcome(lambda: obj(**ns))
+        res.evaluations += 1
+        res.count(label + '_step')
+        if got != {'ok': exp}:
+            fail({'current_source': vs[v].src, 'defaults': mapping_of(defaults), 'keyword arguments x y z': {n: ns[n] for n in 'xyz' if n in ns}},
+                 'after %r the template rendered %r; its current source renders to %r (independent printer)' % (what, got, exp))
+        return got, [[n, c] for n, c in sorted(codes.items()) if n in ns]
+
+    try:
+        op0, j = script[0]
+        log.append(op0 + ' [v%d]' % j)
+        cls = edit_by_copy_class() if html and r.random() < 0.3 else base
+        if op0 == 'new object: cls(src, mapping, **vars)':
+            m, kw = gen_codes(r), gen_codes(r)
+            o = cls(vs[j].src, mapping_of(m), **mapping_of(kw))
+            cur['defaults'] = dict(m, **kw)
+            new_segment([j, pairs(m), pairs(kw)])
+        elif op0 == 'new object: cls(source_string=src)':
+            o = cls(source_string=vs[j].src)
+            new_segment([j, [], []])
+        elif vs[j].src == '' and r.random() < 0.5:
+            o = cls()                       # the default source is the empty one
+            log[-1] = 'new object: cls()'
+            new_segment([j, [], []])
+        else:
+            o = cls(vs[j].src)
+            new_segment([j, [], []])
+        for op, j in [('render', None)] + list(script[1:]):
+            what = op + (' [v%d%s]' % (j, ': the empty source' if vs[j].src == '' else '') if j is not None else '')
+            if op != 'render':
+                log.append(what)
+            res.count(label + ': ' + op)
+            if j is not None:
+                res.count(label + '_edit_%s_to_%s' % ('empty' if vs[cur['v']].src == '' else 'nonempty',
+                                                      'empty' if vs[j].src == '' else 'nonempty'))
+            src = vs[j].src if j is not None else None
+            mop = None
+            if op in ('render', 'render again'):
+                pass
+            elif op in ('munge(src)', 'munge(source_string=src)', 'manage_edit(src)', 'manage_edit(src, None)'):
+                if op == 'munge(src)':
+                    o.munge(src)
+                elif op == 'munge(source_string=src)':
+                    o.munge(source_string=src)
+                elif op == 'manage_edit(src)':
+                    o.manage_edit(src) if not isinstance(o, edit_by_copy_class()) else HTML.manage_edit(o, src)
+                else:
+                    o.manage_edit(src, None) if not isinstance(o, edit_by_copy_class()) else HTML.manage_edit(o, src, None)
+                cur['v'] = j
+                mop = ['mungeSrc', j]
+            elif op == 'raw = src; cook()':
+                o.raw = src
+                o.cook()
+                cur['v'] = j
+                # for the state machine: an object with this source and these defaults, compiled
+                new_segment([j, pairs(cur['defaults']), []])
+                mop = ['cook']
+            elif op in ('munge(src, mapping)', 'munge(src, mapping, **vars)', 'munge(src, **vars)'):
+                m = gen_codes(r) if 'mapping' in op else None
+                kw = gen_codes(r, nonempty=True) if 'vars' in op else {}
+                if m is None:
+                    o.munge(src, **mapping_of(kw))
+                else:
+                    o.munge(src, mapping_of(m), **mapping_of(kw))
+                cur['v'] = j
+                cur['defaults'] = dict(m or {}, **kw)      # keyword defaults win over the mapping's
+                mop = ['mungeBoth', j, pairs(m or {}), pairs(kw)]
+            elif op in ('munge(None, mapping)', 'munge(mapping=mapping)', 'munge(**vars)'):
+                if op == 'munge(**vars)':
+                    m, kw = {}, gen_codes(r, nonempty=True)
+                    o.munge(**mapping_of(kw))
+                else:
+                    m, kw = gen_codes(r), {}
+                    o.munge(None, mapping_of(m)) if op == 'munge(None, mapping)' else o.munge(mapping=mapping_of(m))
+                cur['defaults'] = dict(m, **kw)             # the text is kept, the defaults are the ones given (also if empty)
+                mop = ['mungeVars', pairs(m), pairs(kw)]
+            elif op in ('munge()', 'munge(None)', 'cook()'):
+                o.munge() if op == 'munge()' else o.munge(None) if op == 'munge(None)' else o.cook()
+                mop = ['cook']                              # nothing given: the same text is compiled again
+            elif op == 'pickle':
+                o = pickle.loads(pickle.dumps(o))
+                mop = ['pickle']
+            elif op == 'deepcopy':
+                o = copy.deepcopy(o)
+                mop = ['deepcopy']
+            elif op.startswith('new object'):
+                if op == 'new object: cls(src, mapping, **vars)':
+                    m, kw = gen_codes(r), gen_codes(r)
+                    o = base(src, mapping_of(m), **mapping_of(kw))
+                elif op == 'new object: cls(source_string=src)':
+                    m, kw = {}, {}
+                    o = base(source_string=src)
+                else:
+                    m, kw = {}, {}
+                    o = base(src)
+                cur['v'] = j
+                cur['defaults'] = dict(m, **kw)
+                new_segment([j, pairs(m), pairs(kw)])
+            elif op == 'edit through copy':
+                if not isinstance(o, edit_by_copy_class()):
+                    # only such objects edit themselves through a copy; make this one a copy-editing one first
+                    o = edit_by_copy_class()(vs[cur['v']].src, mapping_of(cur['defaults']))
+                    new_segment([cur['v'], pairs(cur['defaults']), []])
+                holder = Holder()
+                o.manage_edit(src, [None, holder], 'http://host/folder/doc', None)
+                old, oldv = o, cur['v']
+                o = holder.doc
+                show(old, what + ': the object that was copied keeps its source', oldv)
+                cur['v'] = j
+                new_segment([j, pairs(cur['defaults']), []])       # copy_class(data, self.globals, name)
+            else:
+                raise ValueError(op)
+            if mop is not None:
+                observe(o, mop)
+            got, inputs = show(o, what)
+            observe(o, ['render', inputs], got)
+    except Exception as e:  # noqa
+        fail({}, 'operation after %r raised %s: %s' % (log[-1:] or ['start'], type(e).__name__, e))
+
+
+def degenerate_kinds(r, pool, syn):
+    """one version of each kind of source an edit can go from / to"""
+    out = {}
+    for _ in range(40):
+        v = draw_version(r, pool, syn, False)
+        if v is not None:
+            out['a source with tags / text'] = v
+            break
+    out['the empty source'] = degenerate_version(r, syn, False, 1.0)
+    out['a degenerate source'] = degenerate_version(r, syn, False, 0.0)
+    return out
+
+
+def run_edit_walks(res, r, n, pool, have_driver, corr_cases):
+    segments = []
+    # (1) deterministic: every operation that gives a source x every pair (kind of source before, kind of source after) x
+    #     both classes; behind the edit the ways of compiling the same text again, and the edit back
+    for syn in ('dtml', 'epfs'):
+        for op in EDITS:
+            if op == 'edit through copy' and syn == 'epfs':
+                continue
+            kinds = degenerate_kinds(r, pool, syn)
+            if len(kinds) < 3:
+                res.count('edit_transition_skipped')
+                continue
+            names = sorted(kinds)
+            vs = [kinds[k] for k in names]
+            for a in range(3):
+                for b in range(3):
+                    first = r.choice(['new object: cls(src)', 'new object: cls(src, mapping, **vars)'])
+                    script = [(first, a), (op, b), ('cook()', None), ('pickle', None), ('munge()', None), (op, a), (r.choice(KEEPS), None),
+                              (op, b), ('munge(None, mapping)', None)]
+                    res.nt(('edit transition', syn, op, names[a], names[b]))
+                    res.count('edit_transition')
+                    run_walk(res, r, syn, vs, script, segments, 'transition')
+    # (2) random walks over all operations; every walk has the empty source among its versions
+    for h in range(n):
+        syn = r.choice(['dtml', 'ssi', 'epfs'])
+        vs = [draw_version(r, pool, syn, False, 0.3) for _ in range(5)]
+        if any(v is None for v in vs):
+            res.count('walk_skipped')
+            continue
+        vs[r.randrange(5)] = degenerate_version(r, syn, False, 1.0)
+        script = gen_script(r, 5, syn != 'epfs', r.randint(4, 10))
+        script[0] = (r.choice(['new object: cls(src)', 'new object: cls(src)', 'new object: cls(source_string=src)',
+                               'new object: cls(src, mapping, **vars)']), r.randrange(5))
+        res.nt(('walk', syn) + tuple(op for op, _ in script) + tuple(v.src[:12] for v in vs))
+        res.count('walk')
+        run_walk(res, r, syn, vs, script, segments, 'walk')
+    for seg in segments:
+        for v in seg['vs']:
+            corr_cases.append((v.kind, v.src))
+    tmpl_corr(res, segments, have_driver)
+
+
+def tmpl_corr(res, segments, have_driver):
+    """The Lean template-object state machine (DTML.Tmpl, driver op "tmpl": sources are numbers) against the real object
+    after every operation: which source is the current one (raw), the defaults, whether compiled data is present; the
+    compiled blocks of the real object are those the Lean builder makes of the source the state machine says is current
+    (driver op "compile"); a call renders the program the state machine says, with the values it says -- text by the
+    independent printer."""
+    if not have_driver or not segments:
+        return
+    segs = [s for s in segments if s['ops']]
+    resp = common.run_driver([{'op': 'tmpl', 'init': s['init'], 'ops': s['ops']} for s in segs])
+    srcs = sorted({(v.kind, v.src) for s in segs for v in s['vs']})
+    comp = common.run_driver([{'op': 'compile', 'syntax': k, 'src': t} for k, t in srcs])
+    trees = {}
+    for key, rp in zip(srcs, comp):
+        m = rp.get('ok')
+        if m is None:
+            res.harness_errors.append('driver: %r' % (rp,))
+            return
+        if m['status'] == 'ok' and all(parselib.expr_ok(e) for e, _ in m['exprs']):
+            trees[key] = parselib.norm_model(m['tree'])
+    for s, rp in zip(segs, resp):
+        if 'ok' not in rp:
+            res.harness_errors.append('driver: %r' % (rp,))
+            return
+        vs = s['vs']
+
+        def case(i):
+            return {'syntax': s['syntax'], 'history': s['log'][:s['obs'][i]['at']], 'sources': [v.src for v in vs],
+                    'state machine': {'init': s['init'], 'ops': s['ops'][:i + 1]}}
+        for i, (mop, ob, ms) in enumerate(zip(s['ops'], s['obs'], rp['ok'])):
+            res.corr_checked += 1
+            real = {'raw': ob['raw'], 'globals': sorted([n, v] for n, v in ob['globals'].items()),
+                    'vars': sorted([n, v] for n, v in ob['vars'].items()), 'cooked': ob['cooked']}
+            mod = {'raw': vs[ms['raw']].src, 'globals': sorted([n, sentv(n, c)] for n, c in ms['globals']),
+                   'vars': sorted([n, sentv(n, c)] for n, c in ms['vars']), 'cooked': ms['cooked'] is not None}
+            if real != mod:
+                res.corr_mismatch.append({'case': case(i), 'impl': real, 'model': mod, 'diff': 'object state after op %d %r' % (i, mop)})
+                break
+            if ms['cooked'] is not None:
+                key = (vs[ms['cooked']].kind, vs[ms['cooked']].src)
+                if key in trees and ob['blocks'] != trees[key]:
+                    res.corr_mismatch.append({'case': case(i), 'impl': ob['blocks'], 'model': trees[key],
+                                              'diff': 'compiled blocks of the object after op %d %r vs the model\'s compilation of the '
+                                                      'source its state machine holds (%r)' % (i, mop, key[1])})
+                    break
+            if mop[0] == 'render' and ms['out'] is not None:
+                p, g, _, inp = ms['out']
+                sent = {n: sentv(n, c) for n, c in g}
+                sent.update({n: sentv(n, c) for n, c in inp})
+                want = {'ok': expected(vs[p].tmpl, sent)} if all(n in sent for n in 'xyz') else None
+                if want is not None and ob['out'] != want:
+                    res.corr_mismatch.append({'case': case(i), 'impl': ob['out'], 'model': want,
+                                              'diff': 'op %d: the call\'s output vs the rendering of the program / defaults / inputs the '
+                                                      'state machine gives (source %d)' % (i, p)})
+                    break
+
+
+def run_checks(res, r, n_tmpl, n_plain, n_pairs, have_driver, n_hist=0, battery_stride=1, n_walks=0):
     corr_cases = []
     tmpls = []
     for _ in range(n_tmpl):
@@ -746,6 +1135,8 @@ def run_checks(res, r, n_tmpl, n_plain, n_pairs, have_driver, n_hist=0, battery_
         corr_cases.append(('html', sa + sb))
     # object histories
     run_histories(res, r, n_hist, tmpls)
+    if n_walks:
+        run_edit_walks(res, r, n_walks, tmpls, have_driver, corr_cases)
     compile_corr(res, corr_cases, have_driver)
 
 
@@ -763,12 +1154,20 @@ def run(res, tier, have_driver):
                 'cook, sources compiled before compiled again by new objects and by the other class (other syntax = text), '
                 'File / HTMLFile on a file that is rewritten (new object on the same path, cook, unpickle), edited_source, '
                 'HTMLFile.manage_edit, manage_default, the other file class on the same path, concatenated sources: every '
-                'rendering == independent printer on the CURRENT source; non-trivial = sources containing a newline / '
+                'rendering == independent printer on the CURRENT source; every step of a history may meet the empty source or '
+                'a degenerate one (blank, lone line end, "0", "None", "()", zero-width …) as constructor argument / edit text / '
+                'file content; edit walks: random sequences over every source-giving operation (munge positional / keyword, '
+                'manage_edit, raw + cook, munge with mapping / **vars, new object by positional / keyword / default argument, '
+                'HTMLDefault edit-through-copy) and every source-keeping one (munge() / munge(None) / defaults only incl. the '
+                'empty mapping / cook / pickle / deepcopy) over 5 versions incl. the empty source, rendered after every '
+                'operation with x / y / z partly from the installed defaults; each source-giving operation x {tags, empty, '
+                'degenerate}^2 deterministically; the walks also run on the Lean template state machine (raw, defaults, '
+                'compiled blocks == Lean builder of the current source, output); non-trivial = sources containing a newline / '
                 'candidate / near-tag character / pair junctions / histories')
     if tier == 'quick':
-        run_checks(res, r, 400, 1500, 2000, have_driver, 250)
+        run_checks(res, r, 400, 1500, 2000, have_driver, 250, n_walks=250)
     else:
-        run_checks(res, r, 6000, 30000, 20000, have_driver, 4000)
+        run_checks(res, r, 6000, 30000, 20000, have_driver, 4000, n_walks=5000)
     res.sample({'example': 'see input_distribution'})
     res.assumptions += ['the hand-compiled scanners are validated against CPython re by the token correspondence, not proved '
                         'equivalent', 'rendering of the tags used by the oracle (sentinel var, fixed-truth if/unless, fixed-length '
@@ -778,14 +1177,15 @@ def run(res, tier, have_driver):
     res.partial.append('render_concat is checked by the oracle; the Lean side proves literal preservation through scanner and '
                        'builder (tokens_lossless, compile_literals, skipEol_spec) and in-order verbatim emission by the '
                        'interpreter (lit_verbatim, blocks_in_order), not yet their composition over a+b')
-    res.partial.append('template object histories (edits, file templates, compiled forms of earlier sources) are decided by the '
-                       'oracle only; the Lean model has no notion of a template object for this property')
+    res.partial.append('file-template histories and compiled forms of earlier sources are decided by the oracle only; edit walks on '
+                       'HTML / String objects are also compared with the Lean template state machine (DTML.Tmpl), whose theorems '
+                       'belong to C17; `raw = src; cook()` and edit-through-copy enter that model as a new object in the same state')
 
 
 def search_more(res, tier):
     r = common.rng('C01-more')
     res2 = common.Result('C01')
-    run_checks(res2, r, 3000, 10000, 10000, False, 1500)
+    run_checks(res2, r, 3000, 10000, 10000, False, 1500, n_walks=1500)
     return res2.oracle_fail
 
 
